@@ -46,6 +46,10 @@ def strategy_(g):
         if kind == "builtin":
             case["ea"] = E.gen_edge(g, s=s, info_kind=g.choice(["spd", "ident", "diag"]), max_cond=1e2)
             case["ea"]["off_id"] = g.choice([0, 0, None, 5])
+            idc = g.choice(["01", "small", "1e5..1e7", "huge"])
+            if idc != "01":
+                a0 = {"small": g.rnd.randint(-50, 50), "1e5..1e7": g.rnd.randint(10**5, 10**7), "huge": g.rnd.randint(2**62, 2**70)}[idc]
+                case["ea"]["edge_ids"] = [a0, a0 + g.rnd.choice([1, 2, 1000, -1])]
         else:
             tag = g.choice(["prior", "dist", "mid"])
             base = g.choice(["r2", "r3", "se2", "se3"])
@@ -64,7 +68,7 @@ def strategy_(g):
     else:
         nz = g.choice([0.05, 1e-3, 1e-5, 1e-7])
         case["g"] = GG.gen(g, n_pose=(2, 5), n_lm=(0, 2), n_loops=(0, 2), conds=(1.0, 1e2), noise=(nz, nz), pert=(g.choice([0.3, 0.0]),) * 2, world=(1.0, 10.0, 100.0), features=("parallel", "reversed", "permute", "ids", "custom", "quat-signs", "lm_odo", "pure-translation-steps"), custom_flavour="num")
-        case["struct"] = g.choice(["drop-edge", "add-vertex", "swap-vertices", "swap-edges", "vertex-id", "edge-class"])
+        case["struct"] = g.choice(["drop-edge", "add-vertex", "edge-for-vertex", "swap-vertices", "swap-edges", "vertex-id", "edge-class"])
         case["pre"] = g.choice(["none", "none", "chi2-both", "chi2-one", "optimize-both"])
     return case
 
@@ -86,7 +90,7 @@ def _build_edge(d):
         z = d["z"]
         est = gs.mk_pose(z) if isinstance(z, dict) else (float(z[0]) if d["custom"] == "dist" else np.array(z, dtype=float))
         return CE.CLASSES[(d["custom"], "num")](list(d["ids"]), np.array(d["info"], dtype=float), est)
-    e, v1, v2 = E.build_edge(d)
+    e, v1, v2 = E.build_edge(d, ids=tuple(d.get("edge_ids", (0, 1))))
     if isinstance(e, gs.EdgeLandmark):
         e.offset_id = d.get("off_id", 0)
     return e
@@ -355,6 +359,16 @@ def check(case, ctx):
             return
         c2["edges"].pop(sel[0] % len(c2["edges"]))
     elif st == "add-vertex":
+        nid = max(v["id"] for v in c2["verts"]) + 1
+        c2["verts"].append({"id": nid, "p": copy.deepcopy(c2["verts"][0]["p"]), "fixed": False, "truth": [], "role": "pose"})
+    elif st == "edge-for-vertex":
+        # the same total number of objects, split differently: the LAST edge dropped, one vertex appended
+        if len(c2["edges"]) < 1:
+            return
+        last = len(c2["edges"]) - 1
+        if any(e.get("same_as") == last for e in c2["edges"]):
+            return
+        c2["edges"].pop()
         nid = max(v["id"] for v in c2["verts"]) + 1
         c2["verts"].append({"id": nid, "p": copy.deepcopy(c2["verts"][0]["p"]), "fixed": False, "truth": [], "role": "pose"})
     elif st == "swap-vertices":
